@@ -172,7 +172,14 @@ def swap_layer(rep, rs, ncases):
             e_del = ExchangeMove(lab.copy(), Translation(), bias_towards_insert=0.0)
             e_ins = ExchangeMove(lab.copy(), Translation(), bias_towards_insert=1.0)
             e_del.to_delete_label = target
-            mc.add_move(CompositeMove([e_del, e_ins] if order == 0 else [e_ins, e_del]), criteria=_Reject(), name="swap")
+            if k % 4 == 3 and len(np.unique(lab)) >= 2:
+                # a composite exchange move deleting two particles: the deleted indices come in label-choice order
+                comp = ExchangeMove(lab.copy(), Translation()) * 2
+                comp.bias_towards_insert = 0.0
+                mc.add_move(comp, criteria=_Reject(), name="swap")
+                ctx["what"] = ctx["what"].replace("delete label", "composite deletion of two particles; (ignored) label")
+            else:
+                mc.add_move(CompositeMove([e_del, e_ins] if order == 0 else [e_ins, e_del]), criteria=_Reject(), name="swap")
             mc.run(1)
             hist = mc.move_history[-1][1] if mc.move_history else None
             err = same_arrays(orig, mc.atoms)
